@@ -101,7 +101,7 @@ fn register<'a>(os: &'a ObjectServer, path: String, log: Log) -> BoxFut<'a, zbus
 fn remove<'a>(os: &'a ObjectServer, path: String) -> BoxFut<'a, zbus::Result<bool>> {
     Box::pin(async move { os.remove::<Manual, _>(path).await })
 }
-fn px<'a>(_c: &'a Connection, _p: String, _op: usize, _b: Vec<u8>) -> BoxFut<'a, Result<PxOut, String>> {
+fn px<'a>(_c: &'a Connection, _p: String, _op: usize, _b: Vec<u8>, _x: PxCtx) -> BoxFut<'a, Result<PxOut, String>> {
     Box::pin(async move { Err("the hand-written interface has no generated proxy".to_string()) })
 }
 fn bpx(_c: &zbus::blocking::Connection, _p: String, _op: usize, _b: Vec<u8>) -> Result<PxOut, String> {
@@ -140,8 +140,8 @@ pub fn entry() -> IfaceEntry {
         bpx,
         methods: vec![MethodEntry { member: "Echo", in_sigs: &["s"], in_names: &["a0"], out_sigs: &["s"], out_names: &[], body_sig: "s", struct_ret: false, mutable: false, is_async: true, mode: 0, header: false, emits: None, gen_call: echo_call, expect: echo_expect, expect_signal: None, doc: None }],
         props: vec![
-            PropEntry { name: "Level", sig: "u", read: true, write: true, emits: "false", rejects: false, init: level_init, gen_val: level_gen, doc: None },
-            PropEntry { name: "Title", sig: "s", read: true, write: false, emits: "const", rejects: false, init: title_init, gen_val: title_gen, doc: None },
+            PropEntry { name: "Level", sig: "u", read: true, write: true, emits: "false", rejects: false, interior: false, init: level_init, gen_val: level_gen, doc: None },
+            PropEntry { name: "Title", sig: "s", read: true, write: false, emits: "const", rejects: false, interior: false, init: title_init, gen_val: title_gen, doc: None },
         ],
         signals: vec![],
         px_ops: vec![],
